@@ -310,9 +310,12 @@ func init() {
 			}
 			tid := 0
 			var ty types.Type
+			if int(k.Val) < len(e.ArgT) {
+				ty = e.ArgT[k.Val]
+			}
 			switch x := v.(type) {
 			case *PtrV:
-				if x.Obj != nil {
+				if ty == nil && x.Obj != nil {
 					ty = types.NewPointer(x.Obj.Type)
 				}
 			}
@@ -352,6 +355,10 @@ func init() {
 				if e.Callee == "recv" && s.chanName(e.Target) == name && len(e.Args) > 0 {
 					if iv, ok := e.Args[0].(*IfaceV); ok {
 						return []Value{iv}
+					}
+					if len(e.ArgT) > 0 {
+						tid := typeID(e.ArgT[0])
+						return []Value{&IfaceV{Type: Const(32, uint64(tid)), Handle: Const(64, 0), alts: map[int]Value{tid: e.Args[0]}}}
 					}
 				}
 			}
@@ -395,6 +402,25 @@ func init() {
 		"blockingOps": func(s *State, fn *ssa.Function, args []Value, where string) []Value {
 			return []Value{Const(64, uint64(s.blocking))}
 		},
+		"logRetBool": func(s *State, fn *ssa.Function, args []Value, where string) []Value {
+			e := s.logEntry(args[0])
+			if len(e.Rets) == 1 {
+				if t, ok := e.Rets[0].(*Term); ok && t.Sort.Kind == KBool {
+					return []Value{t}
+				}
+			}
+			return []Value{s.freshVar("nologretbool", BoolSort)}
+		},
+		"logArgDuration": func(s *State, fn *ssa.Function, args []Value, where string) []Value {
+			e := s.logEntry(args[0])
+			k := asTerm(args[1])
+			if k.IsConst() && int(k.Val) < len(e.Args) {
+				if t, ok := e.Args[k.Val].(*Term); ok {
+					return []Value{t}
+				}
+			}
+			return []Value{s.freshVar("nologarg", BV(64))}
+		},
 		"logRetAny": func(s *State, fn *ssa.Function, args []Value, where string) []Value {
 			e := s.logEntry(args[0])
 			k := asTerm(args[1])
@@ -409,7 +435,14 @@ func init() {
 			return nil
 		},
 		"mapHasPtr": func(s *State, fn *ssa.Function, args []Value, where string) []Value {
-			m := args[0].(*MapV)
+			mv := args[0]
+			if x, ok := mv.(*IfaceV); ok && x.Type.IsConst() {
+				mv = x.alts[int(x.Type.Val)]
+			}
+			m, ok := mv.(*MapV)
+			if !ok {
+				unsup("mapHasPtr on %T", mv)
+			}
 			iv := args[1]
 			if x, ok := iv.(*IfaceV); ok && x.Type.IsConst() {
 				iv = x.alts[int(x.Type.Val)]
